@@ -8,6 +8,7 @@
  *
  * Operations
  *   gen <spec> <path>                      write a table with carquet's writer            -> OK <size> <fnv>
+ *   genblob <codec> <path> <hex>...        one REQUIRED BYTE_ARRAY column with the given values, one row group
  *   cuts <path> <tmp> <from> <to>          open every prefix of length from..to-1 in three modes
  *                                          -> OK <cut>:<c0>,<c1>,<c2> ...   (0 = accepted)
  *   parse <hex>                            parquet_parse_file_metadata + build_schema on the region -> OK <code>
@@ -106,17 +107,21 @@ static struct {
     long fail_at;     /* index of the call that fails (-1: none) */
     int err;          /* injected sticky error indicator */
     int failed;       /* an injected failure happened */
-    char log[512];    /* kinds of the calls seen: w f c */
+    char log[4096];   /* the calls seen: w<bytes> f c, '|' before every writer call */
     int logn;
 } g_inj = {0, 0, -1, 0, 0, {0}, 0};
 
 static int inj_target(FILE* f) { return g_inj.armed && f && f != stdout && f != stderr && f != stdin; }
 static void inj_log(char c) { if (g_inj.logn < (int)sizeof(g_inj.log) - 1) g_inj.log[g_inj.logn++] = c; }
+static void inj_logn(size_t n) {
+    char t[32]; int k = snprintf(t, sizeof(t), "%zu.", n);
+    for (int i = 0; i < k; i++) inj_log(t[i]);
+}
 
 size_t __wrap_fwrite(const void* p, size_t sz, size_t n, FILE* f) {
     if (!inj_target(f)) return __real_fwrite(p, sz, n, f);
     long idx = g_inj.count++;
-    inj_log('w');
+    inj_log('w'); inj_logn(sz * n);
     if (idx == g_inj.fail_at) {
         /* a short write: half of the items go through, the rest is refused */
         size_t part = n / 2;
@@ -299,16 +304,19 @@ static int run_history(carquet_writer_t* w, const spec_t* sp, int stop_at, int s
     for (int g = 0; g < sp->rgs; g++) {
         for (int c = 0; c < n; c++) {
             if (step == stop_at) { carquet_writer_abort(w); return step; }
+            inj_log('|');
             statuses[step] = (int)write_column(w, sp, g, c);
             if (statuses[step++] != CARQUET_OK && stop_on_error) { carquet_writer_abort(w); return step; }
         }
         if (g + 1 < sp->rgs) {
             if (step == stop_at) { carquet_writer_abort(w); return step; }
+            inj_log('|');
             statuses[step] = (int)carquet_writer_new_row_group(w);
             if (statuses[step++] != CARQUET_OK && stop_on_error) { carquet_writer_abort(w); return step; }
         }
     }
     if (step == stop_at) { carquet_writer_abort(w); return step; }
+    inj_log('|');
     statuses[step++] = (int)carquet_writer_close(w);
     *closed = 1;
     return step;
@@ -334,6 +342,30 @@ static void op_gen(const char* spec, const char* path) {
     for (int i = 0; i < n; i++) if (st[i] != CARQUET_OK) { printf("ERR step %d status %d\n", i, st[i]); return; }
     size_t len; uint8_t* b = read_file(path, &len);
     printf("OK %zu %016" PRIx64 " steps=%d\n", len, fnv1a(b, len), n);
+    free(b);
+}
+
+static void op_genblob(int codec, const char* path, int nvals, char** hex) {
+    carquet_error_t e = CARQUET_ERROR_INIT;
+    carquet_schema_t* s = carquet_schema_create(&e);
+    if (!s || carquet_schema_add_column(s, "blob", CARQUET_PHYSICAL_BYTE_ARRAY, NULL, CARQUET_REPETITION_REQUIRED, 0) != CARQUET_OK) {
+        puts("ERR schema"); carquet_schema_free(s); return;
+    }
+    carquet_writer_options_t o; carquet_writer_options_init(&o);
+    o.compression = (carquet_compression_t)codec;
+    carquet_writer_t* w = carquet_writer_create(path, s, &o, &e);
+    if (!w) { printf("ERR create %d\n", (int)e.code); carquet_schema_free(s); return; }
+    carquet_byte_array_t* ba = calloc((size_t)nvals, sizeof(*ba));
+    void** bases = calloc((size_t)nvals, sizeof(void*));
+    for (int i = 0; i < nvals; i++) { size_t n; ba[i].data = h_unhex(hex[i], &n, 0, &bases[i]); ba[i].length = (int32_t)n; }
+    carquet_status_t st = carquet_writer_write_batch(w, 0, ba, nvals, NULL, NULL);
+    carquet_status_t sc = carquet_writer_close(w);
+    for (int i = 0; i < nvals; i++) free(bases[i]);
+    free(ba); free(bases);
+    carquet_schema_free(s);
+    if (st != CARQUET_OK || sc != CARQUET_OK) { printf("ERR write %d close %d\n", (int)st, (int)sc); return; }
+    size_t len; uint8_t* b = read_file(path, &len);
+    printf("OK %zu %016" PRIx64 "\n", len, fnv1a(b, len));
     free(b);
 }
 
@@ -374,8 +406,10 @@ static long value_size_of(int type, int tl) {
 typedef struct {
     long calls, errs, values, badcode, livelock, okcols;
     int first_err;
+    int badsite;
 } stats_t;
 
+#define BAD(st, site) do { (st)->badcode++; if (!(st)->badsite) (st)->badsite = (site); } while (0)
 static void note_err(stats_t* st, int code) { st->errs++; if (!st->first_err) st->first_err = code; }
 
 static const parquet_schema_element_t* leaf_elem(carquet_reader_t* r, int col) {
@@ -398,7 +432,7 @@ static void ex_metadata(carquet_reader_t* r, stats_t* st) {
         for (int32_t i = -1; i <= ne; i++) {
             const carquet_schema_node_t* nd = carquet_schema_get_element(s, i);
             st->calls++;
-            if ((i < 0 || i >= ne) && nd) st->badcode++;       /* out of range must be NULL */
+            if ((i < 0 || i >= ne) && nd) BAD(st, 1);       /* out of range must be NULL */
             if (!nd) continue;
             const char* nm = carquet_schema_node_name(nd);
             if (nm) touch(nm, strlen(nm));
@@ -413,7 +447,7 @@ static void ex_metadata(carquet_reader_t* r, stats_t* st) {
         carquet_status_t c = carquet_reader_row_group_metadata(r, probes[k], &m);
         st->calls++;
         int inrange = probes[k] >= 0 && probes[k] < nrg;
-        if (!inrange && c == CARQUET_OK) st->badcode++;
+        if (!inrange && c == CARQUET_OK) BAD(st, 2);
         if (c != CARQUET_OK) note_err(st, (int)c);
     }
     /* out-of-range get_column indices must be reported as errors, with a code and a terminated message */
@@ -424,16 +458,16 @@ static void ex_metadata(carquet_reader_t* r, stats_t* st) {
             carquet_error_t e = CARQUET_ERROR_INIT;
             carquet_column_reader_t* c = carquet_reader_get_column(r, probes[k], cprobes[j], &e);
             st->calls++;
-            if (c) { st->badcode++; carquet_column_reader_free(c); }
-            else { if (!err_ok(&e)) st->badcode++; note_err(st, (int)e.code); }
+            if (c) { BAD(st, 3); carquet_column_reader_free(c); }
+            else { if (!err_ok(&e)) BAD(st, 4); note_err(st, (int)e.code); }
             (void)rg_in;
         }
         if (!(probes[k] >= 0 && probes[k] < nrg)) {
             carquet_error_t e = CARQUET_ERROR_INIT;
             carquet_column_reader_t* c = carquet_reader_get_column(r, probes[k], 0, &e);
             st->calls++;
-            if (c) { st->badcode++; carquet_column_reader_free(c); }
-            else { if (!err_ok(&e)) st->badcode++; note_err(st, (int)e.code); }
+            if (c) { BAD(st, 5); carquet_column_reader_free(c); }
+            else { if (!err_ok(&e)) BAD(st, 6); note_err(st, (int)e.code); }
         }
     }
 }
@@ -449,7 +483,7 @@ static void ex_columns(carquet_reader_t* r, long batch, long skip, stats_t* st) 
             carquet_error_t e = CARQUET_ERROR_INIT;
             carquet_column_reader_t* col = carquet_reader_get_column(r, g, c, &e);
             st->calls++;
-            if (!col) { if (!err_ok(&e)) st->badcode++; note_err(st, (int)e.code); continue; }
+            if (!col) { if (!err_ok(&e)) BAD(st, 7); note_err(st, (int)e.code); continue; }
             const parquet_schema_element_t* el = leaf_elem(r, c);
             long vs = el ? value_size_of(el->has_type ? (int)el->type : -1, el->type_length) : -1;
             if (vs <= 0) { carquet_column_reader_free(col); continue; }    /* a caller cannot size a buffer */
@@ -466,15 +500,22 @@ static void ex_columns(carquet_reader_t* r, long batch, long skip, stats_t* st) 
                 st->calls++;
                 if (n < 0) { note_err(st, -1); break; }
                 if (n == 0) break;
-                if (n > batch) { st->badcode++; break; }
+                if (n > batch) { BAD(st, 8); break; }
                 st->values += n;
                 touch(defs, sizeof(int16_t) * (size_t)n);
                 touch(reps, sizeof(int16_t) * (size_t)n);
                 if (is_ba) {
+                    /* dense convention: only the entries of the non-null rows are values.  With nulls, the
+                     * position of the dense values after a partial read is wrong in the pinned tree (F5, a
+                     * C02 matter): the pointers are followed only for the first call on such a column. */
                     carquet_byte_array_t* ba = (carquet_byte_array_t*)vals;
-                    for (int64_t i = 0; i < n; i++) {
-                        if (ba[i].data && ba[i].length > 0) touch(ba[i].data, (size_t)ba[i].length);
-                        else if (ba[i].length < 0) st->badcode++;
+                    int64_t present = n;
+                    if (col->max_def_level > 0) { present = 0; for (int64_t i = 0; i < n; i++) present += defs[i] == col->max_def_level; }
+                    if (col->max_def_level == 0 || iters == 1) {
+                        for (int64_t i = 0; i < present; i++) {
+                            if (ba[i].length < 0) BAD(st, 9);
+                            else if (ba[i].data && ba[i].length > 0) touch(ba[i].data, (size_t)ba[i].length);
+                        }
                     }
                 } else {
                     touch(vals, (size_t)(n * vs));
@@ -509,15 +550,15 @@ static void ex_batch(carquet_reader_t* r, long batch_size, int proj, stats_t* st
     carquet_error_t e = CARQUET_ERROR_INIT;
     carquet_batch_reader_t* br = carquet_batch_reader_create(r, &cfg, &e);
     st->calls++;
-    if (!br) { if (!err_ok(&e)) st->badcode++; note_err(st, (int)e.code); return; }
+    if (!br) { if (!err_ok(&e)) BAD(st, 10); note_err(st, (int)e.code); return; }
     long iters = 0;
     for (;;) {
         if (++iters > 20000) { st->livelock++; break; }
         carquet_row_batch_t* b = NULL;
         carquet_status_t c = carquet_batch_reader_next(br, &b);
         st->calls++;
-        if (c != CARQUET_OK) { if (c != CARQUET_ERROR_END_OF_DATA) note_err(st, (int)c); if (b) st->badcode++; break; }
-        if (!b) { st->badcode++; break; }
+        if (c != CARQUET_OK) { if (c != CARQUET_ERROR_END_OF_DATA) note_err(st, (int)c); if (b) BAD(st, 11); break; }
+        if (!b) { BAD(st, 12); break; }
         int32_t bc = carquet_row_batch_num_columns(b);
         int64_t rows = carquet_row_batch_num_rows(b);
         (void)rows;
@@ -525,12 +566,12 @@ static void ex_batch(carquet_reader_t* r, long batch_size, int proj, stats_t* st
             const void* data; const uint8_t* bm; int64_t nv;
             carquet_status_t cc = carquet_row_batch_column(b, i, &data, &bm, &nv);
             st->calls++;
-            if (i < 0 || i >= bc) { if (cc == CARQUET_OK) st->badcode++; continue; }
+            if (i < 0 || i >= bc) { if (cc == CARQUET_OK) BAD(st, 13); continue; }
             if (cc != CARQUET_OK) { note_err(st, (int)cc); continue; }
             if (i >= nproj || pmap[i] < 0) continue;
             const parquet_schema_element_t* el = leaf_elem(r, pmap[i]);
             long vs = el ? value_size_of(el->has_type ? (int)el->type : CARQUET_PHYSICAL_BYTE_ARRAY, el->type_length) : -1;
-            if (nv < 0 || nv > batch_size) { st->badcode++; continue; }
+            if (nv < 0 || nv > batch_size) { BAD(st, 14); continue; }
             st->values += nv;
             if (bm && nv > 0) touch(bm, (size_t)((nv + 7) / 8));
             if (data && vs > 0 && nv > 0) {
@@ -538,10 +579,12 @@ static void ex_batch(carquet_reader_t* r, long batch_size, int proj, stats_t* st
                     /* dense values; the number of present entries is nv minus the nulls of the bitmap */
                     const carquet_byte_array_t* ba = (const carquet_byte_array_t*)data;
                     int64_t present = nv;
-                    if (bm) { present = 0; for (int64_t k = 0; k < nv; k++) if (!(bm[k / 8] & (1 << (k % 8)))) present++; }
-                    touch(ba, (size_t)present * sizeof(*ba));
-                    for (int64_t k = 0; k < present; k++)
-                        if (ba[k].data && ba[k].length > 0) touch(ba[k].data, (size_t)ba[k].length);
+                    int nullable = 0;
+                    if (bm) { present = 0; for (int64_t k = 0; k < nv; k++) if (!(bm[k / 8] & (1 << (k % 8)))) present++; nullable = present != nv; }
+                    touch(ba, (size_t)nv * sizeof(*ba));
+                    if (!nullable || iters == 1)       /* see ex_columns: F5 */
+                        for (int64_t k = 0; k < present; k++)
+                            if (ba[k].data && ba[k].length > 0) touch(ba[k].data, (size_t)ba[k].length);
                 } else {
                     touch(data, (size_t)(nv * vs));
                 }
@@ -860,9 +903,9 @@ static void read_child(void* vctx, FILE* out) {
     if (g_prog) g_prog->a = 3;
     carquet_reader_close(r);
     free(keep);
-    fprintf(out, "%s open=0 calls=%ld errs=%ld first=%d values=%ld okcols=%ld badcode=%ld livelock=%ld",
+    fprintf(out, "%s open=0 calls=%ld errs=%ld first=%d values=%ld okcols=%ld badcode=%ld badsite=%d livelock=%ld",
             st.badcode ? "BADERR" : (st.livelock ? "LIVELOCK" : "OK"), st.calls, st.errs, st.first_err, st.values,
-            st.okcols, st.badcode, st.livelock);
+            st.okcols, st.badcode, st.badsite, st.livelock);
 }
 
 /* ------------------------------------------------------------------------------------------ main */
@@ -877,6 +920,8 @@ int main(void) {
         const char* op = h_tok[0];
         if (!strcmp(op, "gen") && h_ntok == 3) {
             op_gen(h_tok[1], h_tok[2]);
+        } else if (!strcmp(op, "genblob") && h_ntok >= 4) {
+            op_genblob(atoi(h_tok[1]), h_tok[2], h_ntok - 3, &h_tok[3]);
         } else if (!strcmp(op, "cuts") && h_ntok == 5) {
             cuts_ctx cx = {h_tok[1], h_tok[2], atol(h_tok[3]), atol(h_tok[4])};
             run_forked(cuts_child, &cx, 120, 300, res, sizeof(res));
